@@ -6,21 +6,28 @@ report hand-over failing at each stage, and - in the harness - a bounce pipeline
 second real queue. The report is parsed by the bounce target with the standard library's
 mime/multipart + net/textproto (independent of maddy's generator); the C18 predicates are the
 Report* predicates of QueueObs.tla, evaluated by TLC on the model and on the recorded traces.
+Further dimensions: failures without an enhanced status code (cfg.enh of Queue.tla: the report must still be
+generated, with a status of the right class; FailedRcptNotReported is the report view of "every terminally failed
+recipient is listed by a report"), and - harness-only, the model does not depend on them - nested pipelines
+(`reroute`) between the rewriting pipeline and the queue incl. a two-step rewrite, spelling classes of non-ASCII
+local parts and senders (decomposed, compatibility characters, case of non-ASCII letters), shapes of the original header.
 """
 import re
 
+import vknown
 import vlib
 from checks import c01
 
-DIMS = dict(rwsets='{{}, {"r1"}, {"r1", "r2"}}', utf8set="{TRUE, FALSE}",
+DIMS = dict(rwsets='{{}, {"r1"}, {"r1", "r2"}}', utf8set="{TRUE, FALSE}", enhset="{TRUE, FALSE}",
             stages='{"ok", "start", "rcpt", "body", "commit"}')
-GEN_DIMS = dict(rwsets='{{}, {"r1"}}', utf8set="{TRUE, FALSE}", stages='{"ok", "start", "body", "commit"}')
+GEN_DIMS = dict(rwsets='{{}, {"r1"}}', utf8set="{TRUE, FALSE}", enhset="{TRUE, FALSE}",
+                stages='{"ok", "start", "body", "commit"}')
 
 MINE = c01.REPORT_PREDS | {"ReportNamesNonFailedRcpt"}
 
 
 def known(viol, beh, trace):
-    opened = {f["id"]: f for f in vlib.open_known("C18")}
+    opened = {f["id"]: f for f in vknown.open_entries("C18")}      # known_findings.d/C18.json (only "open" entries suppress)
     if viol == ["ReportStatusMismatch"] and "C18-F17" in opened:
         generic = True
         for e in trace:
@@ -30,6 +37,12 @@ def known(viol, beh, trace):
                         generic = False
         if generic:
             return ("C18-F17", opened["C18-F17"]["what"])
+    # C18-F37: a two-step rewrite across nested pipelines (front "reroute-chain") is reported under the intermediate address
+    if viol == ["ReportUsesRewrittenAddress"] and "C18-F37" in opened and beh["cfg"].get("front") == "reroute-chain" \
+            and beh["cfg"].get("rw"):
+        listed_eff = set(r for e in trace if e["e"] == "Dsn" and e.get("known") for r in e["rewritten"])
+        if listed_eff and listed_eff <= set(beh["cfg"]["rw"]):
+            return ("C18-F37", opened["C18-F37"]["what"][:200])
     return None
 
 
@@ -45,8 +58,16 @@ def post(ctx, behs):
             # harness-only data dimensions (the model is independent of spelling and error text)
             # the rewriting is done by a real pipeline's replace_rcpt (global / source / destination scope) in front
             # of the queue on three of four behaviours with rewritten recipients, by the harness on the fourth
-            if b["cfg"].get("rw") and not b["cfg"].get("caseVar"):   # (replace_rcpt looks keys up case-insensitively)
-                b["cfg"]["front"] = ["global", "source", "dest", ""][k % 4]
+            # ... and on five of nine with nested pipelines (`reroute { }`) between the rewriting pipeline and the
+            # queue: rewriting outside, inside, split between the two, behind two nested pipelines, in two steps (chain)
+            # (harness/queuecheck/front_nest_test.go; the metadata object with the original-recipient map is shared)
+            if b["cfg"].get("rw") and not b["cfg"].get("caseVar") and \
+                    b["cfg"].get("uniForm", "") not in ("upper", "mixed"):   # (replace_rcpt looks keys up case-folded and normalised)
+                b["cfg"]["front"] = ["global", "reroute-outer", "source", "reroute-inner", "dest", "",
+                                     "reroute-split", "reroute-outer2", "reroute-chain"][k % 9]
+            # shape of the ORIGINAL header the report has to carry (repeated Received fields, a folded long field, a 900
+            # character field, encoded words, raw UTF-8): every field is looked up in the report's header part
+            b["cfg"]["hdrForm"] = ["", "many", "long", "encoded", "utf8", "many"][k % 6]
             b["cfg"]["idn"] = k % 2 == 0
             b["cfg"]["errtext"] = ["", "multiline", "nonascii"][k % 3 if k % 5 else 2]
 
